@@ -111,3 +111,12 @@ MUTANTS["C16"] = [
     ("file-diff-not-stripped", "annet/api/__init__.py", "    diff_obj = patching.strip_unchanged(diff_obj)\n    pre = patching.make_pre(diff_obj)\n    return rb, diff_obj, pre, patchtree", "    pre = patching.make_pre(patching.strip_unchanged(diff_obj))\n    return rb, diff_obj, pre, patchtree"),
     ("device-path-no-orderer-refs", "annet/api/__init__.py", "    diff_tree = patching.make_diff(old, new, rb, [acl_rules, filter_acl_rules])\n    pre = patching.make_pre(diff_tree)", "    diff_tree = patching.make_diff(old, new, rb, [acl_rules, filter_acl_rules])\n    pre = patching.make_pre(patching.strip_unchanged(diff_tree))"),
 ]
+
+MUTANTS["C20"] = [
+    ("make_diff-no-deepcopy", "annet/annlib/patching.py", "    old = copy.deepcopy(old)\n    new = copy.deepcopy(new)\n    diff_pre = apply_diff_rb(old, new, rb)", "    diff_pre = apply_diff_rb(old, new, rb)"),
+    ("make_patch-no-attrs-deepcopy", "annet/annlib/patching.py", '            attrs = copy.deepcopy(rule_pre["attrs"])', '            attrs = rule_pre["attrs"]'),
+    ("select_match-no-deepcopy", "annet/annlib/patching.py", '    match = {"attrs": copy.deepcopy(f_rule["attrs"])}', '    match = {"attrs": f_rule["attrs"]}'),
+    ("render-cache-by-vendor", "annet/rulebook/__init__.py", "        key = (name, hw)\n", "        key = (name, hw.vendor)\n"),
+    ("order_config-sorts-in-place", "annet/annlib/patching.py", "        for row, children in config.items():\n            cmd_direct", "        for row in sorted(config):\n            config.move_to_end(row)\n        for row, children in config.items():\n            cmd_direct"),
+    ("mutable-default-cache", "annet/annlib/patching.py", "def make_pre(diff: Diff, _parent_match=None) -> Dict[str, Any]:\n    pre = odict()", "_PRE_CACHE = {}\n\n\ndef make_pre(diff: Diff, _parent_match=None) -> Dict[str, Any]:\n    pre = odict()\n    if _parent_match is None and len(diff) == 1:\n        k = (diff[0][0], diff[0][1])\n        if k in _PRE_CACHE:\n            return _PRE_CACHE[k]\n        _PRE_CACHE[k] = pre"),
+]
